@@ -112,7 +112,7 @@ def venom_site(src, evm):
     from vyper.codegen_venom.module import generate_runtime_venom
     from vyper.compiler.phases import CompilerData
     from vyper.compiler.settings import Settings, anchor_settings
-    from vyper.venom.basicblock import IRLabel, IRVariable
+    from vyper.venom.basicblock import IRLabel, IRLiteral, IRVariable
 
     cd = CompilerData(HEAD + src, settings=Settings(experimental_codegen=True, evm_version=evm))
     with anchor_settings(cd.settings):
@@ -124,6 +124,9 @@ def venom_site(src, evm):
             blocks[bb.label.value] = bb
             for i, inst in enumerate(bb.instructions):
                 if inst.opcode in CALL_OPS:
+                    if inst.opcode in ("call", "staticcall") and isinstance(inst.operands[-2], IRLiteral) \
+                            and inst.operands[-2].value == 4:
+                        continue   # memory copy through the identity precompile (pre-cancun targets)
                     sites.append((bb, i, inst))
     if len(sites) != 1:
         raise ValueError(f"expected exactly one call site, found {len(sites)}")
